@@ -13,7 +13,17 @@ def blocking : List Bytes :=
   [N.media_jam, N.toner_empty, N.spool_area_full, N.cover_open, N.door_open, N.input_tray_missing,
    N.output_tray_missing, N.marker_supply_empty, N.paused, N.shutdown]
 
-theorem error_states_pin : Gen.errorStates = blocking := by decide
+/-- the translated `ERROR_STATES` holds exactly the ten blocking words (as a set: the order in the source is irrelevant) -/
+theorem error_states_pin : (Gen.errorStates.all fun k => blocking.contains k) = true ∧ (blocking.all fun k => Gen.errorStates.contains k) = true := by
+  decide
+
+theorem error_states_contains (k : Bytes) : Gen.errorStates.contains k = blocking.contains k := by
+  have h := error_states_pin
+  cases h1 : Gen.errorStates.contains k <;> cases h2 : blocking.contains k <;> try rfl
+  · have := (List.all_eq_true.mp h.2) k (List.contains_iff_mem.mp h2)
+    rw [h1] at this; cases this
+  · have := (List.all_eq_true.mp h.1) k (List.contains_iff_mem.mp h1)
+    rw [h2] at this; cases this
 
 theorem names_pin : Gen.readyStateAttr = N.printer_state ∧ Gen.readyReasonsAttr = N.printer_state_reasons ∧
     Gen.readyStoppedState.code = 5 ∧ Gen.readyGroups = [.PrinterAttributes, .PrinterAttributes] := by decide
@@ -47,7 +57,13 @@ theorem ready_iff (h : Header) (gs : List Group) :
     unfold stopped Ready.stoppedV; split <;> simp_all
   have h2 : blockedBy gs = Ready.blockedV blocking (printerAttr N.printer_state_reasons gs) := by
     unfold blockedBy Ready.blockedV; split <;> simp_all
-  rw [Ready.ready_core, h1, h2, names_pin.1, names_pin.2.1, error_states_pin]
+  have h3 : ∀ o, Ready.blockedV Gen.errorStates o = Ready.blockedV blocking o := by
+    intro o
+    unfold Ready.blockedV
+    cases o with
+    | none => rfl
+    | some r => simp only [error_states_contains]
+  rw [Ready.ready_core, h1, h2, names_pin.1, names_pin.2.1, h3]
 
 /-- an error carrying the IPP status exactly when the status is not successful -/
 theorem error_iff_not_success (h : Header) (gs : List Group) :
